@@ -94,7 +94,11 @@ func genAdmin(c *cf.Case, r *cf.Rng, prop string) {
 		nm = 0
 	}
 	for i := 0; i < nm; i++ {
-		c.Faults = append(c.Faults, cf.Fault{When: cf.When{AtUs: at/2 + int64(r.Range(0, 60000))}, Do: "controller-move", To: int32(r.Range(1, nb))})
+		f := cf.Fault{When: cf.When{AtUs: at/2 + int64(r.Range(0, 60000))}, Do: "controller-move", To: int32(r.Range(1, nb))}
+		if r.Intn(3) == 0 {
+			f.Us = int64(r.Pick(500, 5000, 30000, 80000)) // an election gap: no controller for a while
+		}
+		c.Faults = append(c.Faults, f)
 	}
 	if r.Intn(3) != 0 {
 		nf := r.Range(1, 3)
